@@ -47,6 +47,42 @@ def _worst_case_generator(num_jobs, num_machines, max_num_ops, max_op_duration):
     return WorstCaseGenerator(num_jobs, num_machines, max_num_ops, max_op_duration)
 
 
+def _injected_generator(cfg):
+    """INJ: every state of the TLC model from which the episode continues (EVERY instance of the small size: all machine /
+    duration assignments and numbers of ops per job; machines busy or idle, partial schedules) handed out as start state
+    number key[1]; mask, step and observation code are the real ones."""
+    import jax.numpy as jnp
+
+    from harness import inject
+    from jumanji.environments.packing.job_shop.generator import Generator
+    from jumanji.environments.packing.job_shop.types import State
+
+    k = cfg["ctor"]
+    states, _ = inject.dump_states(cfg["inject"][0], cfg["inject"][1], limit=None, var=None)
+    seen = {}
+    for st in states:
+        if not st["over"]:
+            seen.setdefault(repr(st["s"]), st["s"])
+    tab = inject.thin([seen[x] for x in sorted(seen)], cfg.get("limit"))
+    cfg["episodes"] = len(tab)
+    col = lambda f, dt: jnp.asarray(np.array([t[f] for t in tab], dtype=dt))  # noqa: E731
+    T = dict(mid=col("ops_machine_ids", np.int32), dur=col("ops_durations", np.int32), msk=col("ops_mask", bool),
+             sch=col("scheduled_times", np.int32), mj=col("machines_job_ids", np.int32),
+             mr=col("machines_remaining_times", np.int32), sc=col("step_count", np.int32))
+
+    class InjectedGenerator(Generator):
+        def __call__(self, key):
+            j = key[1] % T["sc"].shape[0]
+            return State(ops_machine_ids=T["mid"][j], ops_durations=T["dur"][j], ops_mask=T["msk"][j],
+                         machines_job_ids=T["mj"][j], machines_remaining_times=T["mr"][j], action_mask=None,
+                         step_count=T["sc"][j], scheduled_times=T["sch"][j], key=key)
+
+    return InjectedGenerator(k["num_jobs"], k["num_machines"], k["max_num_ops"], k["max_op_duration"])
+
+
+INJ_PROPS = ["C03", "C04", "C05", "C06", "C09", "C12"]
+
+
 def _c(id, gen, j, m, o, d, episodes, max_steps, **kw):
     cfg = dict(id=id, ctor=dict(generator=gen, num_jobs=j, num_machines=m, max_num_ops=o, max_op_duration=d),
                episodes=episodes, max_steps=max_steps)
@@ -73,6 +109,9 @@ class Adapter(EnvAdapter):
                    policies=["greedy", "serial", "lazy", "mostly_masked", "masked"]),
                 _c("worst_j2m2o2d2", "worst", 2, 2, 2, 2, 6, 14, policies=["serial", "greedy", "lazy"]),
                 _c("worst_j3m2o2d3", "worst", 3, 2, 2, 3, 4, 24, probe_every=2, policies=["serial", "lazy"]),
+                # INJ: states of the 2 x 2 x 2 x 2 TLC model (every instance, mid-schedule states) x all 9 joint actions
+                _c("inj2222", "mc", 2, 2, 2, 2, 0, 1, inject=("MC_JobShop", "MC_JobShop_quick.cfg"), limit=400, post_terminal=0,
+                   policies=["masked"], props=INJ_PROPS),
             ]
         out = [
             _c("default_j20m10o8d6", "default", 20, 10, 8, 6, 8, 400, probe_every=12, probe_cap=160,
@@ -85,6 +124,8 @@ class Adapter(EnvAdapter):
             out.append(_c(f"rnd_j{j}m{m}o{o}d{d}", "random", j, m, o, d, eps, j * o * d + 4,
                           probe_cap=64 if not big else min(m * (j + 1) + 16, 96), probe_every=1 if j * o * d <= 40 else 3,
                           policies=full))
+        out.append(_c("inj2222", "mc", 2, 2, 2, 2, 0, 1, inject=("MC_JobShop", "MC_JobShop_quick.cfg"), limit=4000, post_terminal=0,
+                      policies=["masked"], props=INJ_PROPS))
         for (j, m, o, d) in ((2, 2, 2, 2), (3, 2, 2, 3), (2, 3, 3, 2), (4, 3, 3, 3)):
             out.append(_c(f"worst_j{j}m{m}o{o}d{d}", "worst", j, m, o, d, 16, j * o * d + 4,
                           probe_cap=64 if (j + 1) ** m <= 64 else 40, probe_every=1 if j * o * d <= 12 else 2,
@@ -103,9 +144,18 @@ class Adapter(EnvAdapter):
             env = JobShop(generator=ToyGenerator())
         elif k["generator"] == "worst":
             env = JobShop(generator=_worst_case_generator(*dims))
+        elif "inject" in cfg:
+            env = JobShop(generator=_injected_generator(cfg))
         else:
             env = JobShop(generator=RandomGenerator(*dims))
         return env
+
+    def episode_key(self, cfg, ep, seed):
+        if "inject" not in cfg:
+            return None
+        from harness import inject
+
+        return inject.ep_key(ep)
 
     def cfg_record(self, cfg, env):
         # what the harness REQUESTED (for "default" and "toy": the documented sizes), never read back from env
